@@ -24,16 +24,21 @@ from pathlib import Path
 from . import core
 
 SEEDED = core.VERIF / "seeded"
+BENIGN = core.VERIF / "seeded_benign"  # property-preserving changes: the check must stay green
+
+
+def _dir(sid: str) -> Path:
+    return SEEDED / sid if (SEEDED / sid).exists() else BENIGN / sid
 
 
 def run_one(sid: str, tier: str, base: Path) -> dict:
-    d = SEEDED / sid
+    d = _dir(sid)
     meta = json.loads((d / "meta.json").read_text())
     prop = meta["property"]
     wt = base / ("wt_" + sid)
     ev = base / ("ev_" + sid)
     ev.mkdir(parents=True)
-    out = {"id": sid, "property": prop, "tier": tier}
+    out = {"id": sid, "property": prop, "tier": tier, "expect": "clean" if d.parent == BENIGN else "violation"}
     t0 = time.time()
     try:
         subprocess.run(["git", "-C", "/repo", "worktree", "add", "--detach", "-q", str(wt), "HEAD"], check=True,
@@ -54,6 +59,7 @@ def run_one(sid: str, tier: str, base: Path) -> dict:
             if cp.returncode == 1:
                 break
         out["detected"] = any(r["rc"] == 1 and r["n_violation_lines"] > 0 for r in out["runs"])
+        out["all_clean"] = all(r["rc"] == 0 for r in out["runs"])
         # clean control is implied by the registered check passing on /repo itself
     finally:
         subprocess.run(["git", "-C", "/repo", "worktree", "remove", "--force", str(wt)], capture_output=True)
@@ -71,14 +77,19 @@ def main(argv: list) -> int:
         else:
             ids.append(a)
     if not ids:
-        ids = sorted(p.name for p in SEEDED.iterdir() if (p / "patch.diff").exists() and (p / "meta.json").exists())
+        ids = sorted(p.name for root in (SEEDED, BENIGN) if root.exists() for p in root.iterdir()
+                     if (p / "patch.diff").exists() and (p / "meta.json").exists())
     base = Path(tempfile.mkdtemp(prefix="gotranx-verif-sens-", dir=os.environ.get("VERIF_SCRATCH") or os.environ.get("TMPDIR") or "/tmp"))
     results = []
     try:
         for sid in ids:
             r = run_one(sid, tier, base)
             results.append(r)
-            print("%-40s %-4s %s  (%.0fs) %s" % (sid, r["property"], "DETECTED" if r.get("detected") else ("ERROR " + r.get("error", "") if "error" in r else "missed"),
+            if r["expect"] == "clean":
+                verdict = "clean (as it should)" if r.get("all_clean") else ("ERROR " + r.get("error", "") if "error" in r else "FALSE ALARM / non-zero exit")
+            else:
+                verdict = "DETECTED" if r.get("detected") else ("ERROR " + r.get("error", "") if "error" in r else "missed")
+            print("%-40s %-4s %s  (%.0fs) %s" % (sid, r["property"], verdict,
                                                r.get("wall_s", 0), (r.get("runs") or [{}])[-1].get("lines", [""])[:1]))
             sys.stdout.flush()
     finally:
@@ -94,9 +105,12 @@ def main(argv: list) -> int:
             merged = {}
     for r in results:
         merged[r["id"]] = dict(r, repo_head=core.repo_state()["head"])
-    allr = [merged[k] for k in sorted(merged) if (SEEDED / k).exists()]
-    doc = {"results": allr, "detected": sum(1 for r in allr if r.get("detected")), "total": len(allr)}
+    allr = [merged[k] for k in sorted(merged) if _dir(k).exists()]
+    breaking = [r for r in allr if r.get("expect") != "clean"]
+    benign = [r for r in allr if r.get("expect") == "clean"]
+    doc = {"results": allr, "detected": sum(1 for r in breaking if r.get("detected")), "total": len(breaking),
+           "benign_total": len(benign), "benign_clean": sum(1 for r in benign if r.get("all_clean"))}
     path.write_text(json.dumps(doc, indent=1, sort_keys=True))
-    print("sensitivity: this run %d of %d detected at tier %s; recorded overall %d of %d" %
-          (sum(1 for r in results if r.get("detected")), len(results), tier, doc["detected"], doc["total"]))
+    print("sensitivity: recorded overall %d of %d breaking changes detected; %d of %d property-preserving changes clean (tier of this run: %s)" %
+          (doc["detected"], doc["total"], doc["benign_clean"], doc["benign_total"], tier))
     return 0
